@@ -72,7 +72,18 @@ class HedgeLoss(Module, ABC):
             torch.Tensor
         """
         pl = input - target
-        return bisect(self, self(pl), pl.min(), pl.max())
+        loss = self(pl)
+        lower, upper = pl.min(), pl.max()
+        if lower == upper:
+            # A constant sample is its own cash equivalent.
+            return torch.full_like(loss, lower.item())
+
+        def fn(cash: Tensor) -> Tensor:
+            # The criterion of the constant sample with the given cash amount(s),
+            # evaluated along the path dimension like ``self(pl)``.
+            return self(cash.expand_as(pl))
+
+        return bisect(fn, loss, lower, upper)
 
 
 class EntropicRiskMeasure(HedgeLoss):
